@@ -51,7 +51,7 @@ class C20(Lab):
         "bit positions are counted in processing order (least significant bit of the first byte first)",
     )
     budgets = {"quick": 20000, "thorough": 2000000}
-    time_budget = {"quick": 60, "thorough": 1200}
+    time_budget = {"quick": 240, "thorough": 3600}
     exhaustive_note = "256 table entries; all messages of length <=2 (thorough); all single/double/burst error patterns on <=8-byte messages (thorough)"
 
     def setup(self):
